@@ -262,38 +262,45 @@ def torsion_cases(ctx: Ctx, n):
             names = r.reference.dihedrals[k].split()
             if not all(r.has_atom(x) for x in names) or r.dihedrals[k] is None:
                 continue
-            angle = rng.choice([rng.uniform(-180, 180), rng.uniform(-720, 720), 180.0, 0.0, -179.99])
-            coords = [list(map(float, r.get_atom(x).coords)) for x in names]
-            old = r.dihedrals[k]
-            moved_names = r.get_moveable_names(names[2])
-            before = {a.name: [a.x, a.y, a.z] for a in r.atoms}
-            deb.set_dihedral_angle(r, k, angle)
-            after = {a.name: [a.x, a.y, a.z] for a in r.atoms}
-            ctx.evaluations += 1
-            done += 1
-            ctx.distinct.add(("torsion", r.name, k))
-            ctx.count("torsion-residues", r.name)
-            if ctx.driver.available():
-                rel = [sub(before[m], coords[1]) for m in moved_names]
-                axis = sub(coords[2], coords[1])
-                ans = ctx.driver.ask([f"geom.chi\t{encv(axis)}\t{bits(angle - old)}\t{encvs(rel)}"])[0]
-                model = [[p[j] + coords[1][j] for j in range(3)] for p in decvs(ans)]
-                real = [after[m] for m in moved_names]
-                if not all(close(a, b) for a, b in zip(model, real)):
-                    ctx.disagree("Debump.set_dihedral_angle", {"residue": str(r), "dihedral": names, "angle": angle}, str(model[:2]), str(real[:2]))
-            # oracle: torsion is the requested one, distances to the axis atoms unchanged
-            new = util.dihedral(*[after[x] for x in names])
-            want = ((angle + 180.0) % 360.0) - 180.0
-            dev = abs(((new - want + 180.0) % 360.0) - 180.0)
-            if names[3] in moved_names and dev > 0.05:
-                ctx.violate({"routine": "set_dihedral_angle", "class": r.name, "kind": "torsion-not-set"}, f"{r} {names}: requested {angle}, measured {new}", {"pdb": text, "residue": str(r), "dihedral": k, "angle": angle})
-            for m in moved_names:
-                for ax in (names[1], names[2]):
-                    if abs(math.dist(before[m], before[ax]) - math.dist(after[m], after[ax])) > 1e-6:
-                        ctx.violate({"routine": "set_dihedral_angle", "class": r.name, "kind": "axis-distance-changed"}, f"{r} {m}: distance to {ax} changed", {"pdb": text, "residue": str(r), "dihedral": k, "angle": angle})
-            for nm in before:
-                if nm not in moved_names and before[nm] != after[nm]:
-                    ctx.violate({"routine": "set_dihedral_angle", "class": r.name, "kind": "fixed-atom-moved"}, f"{r} {nm} is not beyond the pivot but moved", {"pdb": text, "residue": str(r), "dihedral": k, "angle": angle})
+            # successive changes of the SAME torsion, as the debumping scan makes them (each one starts from the
+            # angle the previous one left, which the code takes from its cache residue.dihedrals)
+            nsteps = rng.choice([1, 1, 2, 4])
+            ctx.count("torsion-changes-in-a-row", nsteps)
+            seq_angles = []
+            for step_i in range(nsteps):
+                angle = rng.choice([rng.uniform(-180, 180), rng.uniform(-720, 720), 180.0, 0.0, -179.99])
+                seq_angles.append(angle)
+                coords = [list(map(float, r.get_atom(x).coords)) for x in names]
+                old = r.dihedrals[k]
+                moved_names = r.get_moveable_names(names[2])
+                before = {a.name: [a.x, a.y, a.z] for a in r.atoms}
+                deb.set_dihedral_angle(r, k, angle)
+                after = {a.name: [a.x, a.y, a.z] for a in r.atoms}
+                ctx.evaluations += 1
+                done += 1
+                ctx.distinct.add(("torsion", r.name, k))
+                ctx.count("torsion-residues", r.name)
+                if ctx.driver.available():
+                    rel = [sub(before[m], coords[1]) for m in moved_names]
+                    axis = sub(coords[2], coords[1])
+                    ans = ctx.driver.ask([f"geom.chi\t{encv(axis)}\t{bits(angle - old)}\t{encvs(rel)}"])[0]
+                    model = [[p[j] + coords[1][j] for j in range(3)] for p in decvs(ans)]
+                    real = [after[m] for m in moved_names]
+                    if not all(close(a, b) for a, b in zip(model, real)):
+                        ctx.disagree("Debump.set_dihedral_angle", {"residue": str(r), "dihedral": names, "angle": angle}, str(model[:2]), str(real[:2]))
+                # oracle: torsion is the requested one, distances to the axis atoms unchanged
+                new = util.dihedral(*[after[x] for x in names])
+                want = ((angle + 180.0) % 360.0) - 180.0
+                dev = abs(((new - want + 180.0) % 360.0) - 180.0)
+                if names[3] in moved_names and dev > 0.05:
+                    ctx.violate({"routine": "set_dihedral_angle", "class": r.name, "kind": "torsion-not-set"}, f"{r} {names}, change {step_i + 1} of this torsion: requested {angle}, measured {new}", {"pdb": text, "residue": str(r), "dihedral": k, "angle": angle, "change_number": step_i + 1, "angles": list(seq_angles)})
+                for m in moved_names:
+                    for ax in (names[1], names[2]):
+                        if abs(math.dist(before[m], before[ax]) - math.dist(after[m], after[ax])) > 1e-6:
+                            ctx.violate({"routine": "set_dihedral_angle", "class": r.name, "kind": "axis-distance-changed"}, f"{r} {m}: distance to {ax} changed", {"pdb": text, "residue": str(r), "dihedral": k, "angle": angle, "change_number": step_i + 1, "angles": list(seq_angles)})
+                for nm in before:
+                    if nm not in moved_names and before[nm] != after[nm]:
+                        ctx.violate({"routine": "set_dihedral_angle", "class": r.name, "kind": "fixed-atom-moved"}, f"{r} {nm} is not beyond the pivot but moved", {"pdb": text, "residue": str(r), "dihedral": k, "angle": angle, "change_number": step_i + 1, "angles": list(seq_angles)})
             if done >= n:
                 break
         # rotate_tetrahedral: three 120-degree steps return to the start
@@ -321,10 +328,59 @@ def run(ctx: Ctx):
     torsion_cases(ctx, ctx.scale(120, 5000))
 
 
+def replay_torsion(rp) -> bool:
+    """the stored successive torsion changes on the stored structure; True when the property fails again"""
+    import os
+    import tempfile
+
+    from pdb2pqr import cells, debump
+    from pdb2pqr import io as pio
+    from pdb2pqr import main as pmain
+    from pdb2pqr import utilities as util
+    from pdb2pqr.config import CELL_SIZE
+
+    G.quiet()
+    fd, path = tempfile.mkstemp(suffix=".pdb", prefix="c15r_")
+    with os.fdopen(fd, "w") as f:
+        f.write(rp["pdb"])
+    try:
+        pdblist, _ = pio.get_molecule(path)
+    finally:
+        os.unlink(path)
+    bio, _d, _l = pmain.setup_molecule(pdblist, pio.get_definitions(), None)
+    bio.set_termini()
+    bio.update_bonds()
+    deb = debump.Debump(bio)
+    deb.cells = cells.Cells(CELL_SIZE)
+    deb.cells.assign_cells(bio)
+    bio.calculate_dihedral_angles()
+    bio.update_internal_bonds()
+    bio.set_reference_distance()
+    r = next(x for x in bio.residues if str(x) == rp["residue"])
+    k = rp["dihedral"]
+    names = r.reference.dihedrals[k].split()
+    bad = False
+    for i, angle in enumerate(rp["angles"]):
+        before = {a.name: [a.x, a.y, a.z] for a in r.atoms}
+        moved = r.get_moveable_names(names[2])
+        deb.set_dihedral_angle(r, k, angle)
+        after = {a.name: [a.x, a.y, a.z] for a in r.atoms}
+        new = util.dihedral(*[after[x] for x in names])
+        want = ((angle + 180.0) % 360.0) - 180.0
+        dev = abs(((new - want + 180.0) % 360.0) - 180.0)
+        drift = max([abs(math.dist(before[m], before[ax]) - math.dist(after[m], after[ax])) for m in moved for ax in (names[1], names[2])] or [0.0])
+        fixed_moved = [nm for nm in before if nm not in moved and before[nm] != after[nm]]
+        print(f"change {i + 1}: requested {angle}, measured {new} (off by {dev:.4f} degrees); largest change of a distance to the axis atoms {drift:.2e} A; fixed atoms moved: {fixed_moved}")
+        bad = bad or (names[3] in moved and dev > 0.05) or drift > 1e-6 or bool(fixed_moved)
+    return bad
+
+
 def replay(ctx: Ctx, data: dict) -> bool:
     from pdb2pqr import quatfit
 
     rp = data.get("replay", data)
+    if "angles" in rp:
+        return replay_torsion(rp)
     if "defs" in rp:
         real = quatfit.find_coordinates(len(rp["defs"]), rp["refs"], rp["defs"], rp["atom"])
         err = norm(sub(list(real), rp["want"])) if "want" in rp else None
